@@ -470,7 +470,10 @@ def uncovered_pd_path(
 
         # the edge from 'u' to 'second_node' is the first edge of the path,
         # so it has to be potentially directed as well
-        if not _potentially_directed_edge(graph, u, second_node, force_circle):
+        # and 'second_node' must not be the node that is forbidden directly after 'u'
+        if second_node == forbid_node or not _potentially_directed_edge(
+            graph, u, second_node, force_circle
+        ):
             return uncov_pd_path, found_uncovered_pd_path
 
         # the second node may already be the end of the path
@@ -495,8 +498,8 @@ def uncovered_pd_path(
 
         # get all adjacent nodes to 'this_node'
         for next_node in graph.neighbors(this_node):
-            # check that this is the starting node and whether or not we are on a forbidden path
-            if this_node == start_node and forbid_node is not None and next_node == forbid_node:
+            # check that this is the node 'u' and whether or not we are on a forbidden path
+            if this_node == u and forbid_node is not None and next_node == forbid_node:
                 continue
 
             # if we have already explored this neighbor, then ignore
